@@ -807,10 +807,30 @@ func seqSites(p *Program) []string {
 					default:
 						continue
 					}
+					{
+						var other ssa.Value
+						if _, c := t.X.(*ssa.Const); c {
+							other = t.Y
+						} else if _, c := t.Y.(*ssa.Const); c {
+							other = t.X
+						}
+						if d, ok := other.(*ssa.BinOp); ok && d.Op.String() == "-" && widenedSeq(d.X) && widenedSeq(d.Y) {
+							pos := p.Fset.Position(t.Pos())
+							out = append(out, fmt.Sprintf("%s (%s:%d, sign of a widened difference)", k, baseName(pos.Filename), pos.Line))
+							continue
+						}
+					}
 					if _, c := t.X.(*ssa.Const); c {
 						continue
 					}
 					if _, c := t.Y.(*ssa.Const); c {
+						continue
+					}
+					// a sequence number widened to a larger integer type before it is compared or subtracted has lost its
+					// modular wrap-around: int(a) < int(b), and int(a)-int(b) compared with a constant, are raw comparisons too
+					if widenedSeq(t.X) && widenedSeq(t.Y) {
+						pos := p.Fset.Position(t.Pos())
+						out = append(out, fmt.Sprintf("%s (%s:%d, widened operands)", k, baseName(pos.Filename), pos.Line))
 						continue
 					}
 					bt, ok := t.X.Type().Underlying().(*types.Basic)
@@ -831,4 +851,27 @@ func seqSites(p *Program) []string {
 		scan(fn)
 	}
 	return out
+}
+
+// widenedSeq: v is a conversion of a 16- or 32-bit unsigned sequence-number value to a wider integer type.
+func widenedSeq(v ssa.Value) bool {
+	c, ok := v.(*ssa.Convert)
+	if !ok {
+		return false
+	}
+	from, ok1 := c.X.Type().Underlying().(*types.Basic)
+	to, ok2 := c.Type().Underlying().(*types.Basic)
+	if !ok1 || !ok2 || (from.Kind() != types.Uint32 && from.Kind() != types.Uint16) {
+		return false
+	}
+	switch to.Kind() {
+	case types.Int, types.Int64, types.Uint64, types.Uint:
+	case types.Int32, types.Uint32:
+		if from.Kind() != types.Uint16 {
+			return false
+		}
+	default:
+		return false
+	}
+	return isSeqTyped(c.X, 0)
 }
